@@ -252,7 +252,42 @@ def run(tier, pid):
         ]
         mc_cfgs = (("rt_mc1.cfg", False), ("rt_mc_t.cfg", False), ("rt_coded.cfg", True))
     seen_progs = set()
-    traces = []
+    ntraces = 0
+
+    def judge(batch):
+        """4. TLC decides a batch of observations; violations of `pid` are recorded."""
+        nonlocal ntraces
+        if not batch:
+            return
+        verdicts = validate(rep, batch)
+        for i, tr in enumerate(batch):
+            v = verdicts.get(i + 1)
+            if v is None:
+                # TLC could not follow the program to completion with the framework actions; the model is
+                # deterministic in follow mode, so this is a machinery problem, not a verdict
+                raise tlc.MachineryError("trace not completed by the trace spec: %s" % jdump(tr["prog"]))
+            ntraces += 1
+            faults = fault_key(tr["prog"])
+            steps = sum(len(s) for s in tr["prog"]["script"].values())
+            nk = prog_key(tr["prog"]) if (faults or steps > 4) else None
+            rep.case(
+                sample={"prog": tr["prog"], "outcome": tr["obs"]["flav"][0]["outcome"]} if (nk and ntraces % 997 == 3) else None,
+                nontrivial_key=nk,
+            )
+            rep.traces += 1
+            if not v["anomalies"]:
+                raise tlc.MachineryError("synthesised program misbehaved (harness anomaly): %s" % jdump(tr["prog"]))
+            for clause in CLAUSES[pid]:
+                if not v[clause]:
+                    rep.violation(
+                        clause,
+                        classify(tr, v, clause),
+                        {"prog": tr["prog"]},
+                        expected={"allowed": v["allowed"], "nraised": v["nraised"]},
+                        observed=tr["obs"],
+                    )
+
+    batch = []
     for cfg, flavours, kw in plan:
         for p in export_programs(rep, cfg, **kw):
             k = prog_key(p)
@@ -260,47 +295,19 @@ def run(tier, pid):
                 continue
             seen_progs.add(k)
             # 3. run the real code
-            traces.append(observe(p, flavours))
-    # 4. TLC decides
-    verdicts = {}
-    B = 30000
-    for i in range(0, len(traces), B):
-        v = validate(rep, traces[i : i + B])
-        for k, val in v.items():
-            verdicts[i + k - 1] = val
-    missing = [i for i in range(len(traces)) if i not in verdicts]
-    for i in missing[:50]:
-        # TLC could not follow the program to completion with the framework actions: the real run took a path
-        # the model does not have. The model is deterministic here, so this is a machinery problem.
-        raise tlc.MachineryError("trace %d not completed by the trace spec: %s" % (i, jdump(traces[i]["prog"])))
-    for i, tr in enumerate(traces):
-        v = verdicts[i]
-        faults = fault_key(tr["prog"])
-        steps = sum(len(s) for s in tr["prog"]["script"].values())
-        nk = prog_key(tr["prog"]) if (faults or steps > 4) else None
-        rep.case(
-            sample={"prog": tr["prog"], "outcome": tr["obs"]["flav"][0]["outcome"]} if (nk and i % 997 == 3) else None,
-            nontrivial_key=nk,
-        )
-        rep.traces += 1
-        if not v["anomalies"]:
-            raise tlc.MachineryError("synthesised program misbehaved (harness anomaly): %s" % jdump(tr["prog"]))
-        for clause in CLAUSES[pid]:
-            if not v[clause]:
-                rep.violation(
-                    clause,
-                    classify(tr, v, clause),
-                    {"prog": tr["prog"]},
-                    expected={"allowed": v["allowed"], "nraised": v["nraised"]},
-                    observed=tr["obs"],
-                )
+            batch.append(observe(p, flavours))
+            if len(batch) >= 20000:
+                judge(batch)
+                batch = []
+    judge(batch)
+
     # 5. executions nobody here constructed: the repository's own suite under the TESTTOOLS_VERIF hooks
     if pid in ("C01", "C02", "C03"):
         from . import suitetrace
 
         suitetrace.run(rep, pid)
         rep.assume("suite traces: runs whose result is not wrapped by ExtendedToOriginalDecorator, or whose _run_core was stubbed by the test, are skipped")
-    rep.extra["programs"] = len(traces)
+    rep.extra["programs"] = ntraces
     rep.extra["flavours"] = list(synth.FLAVOURS)
     rep.assume("user addDetail names are absent from the details at the time of the call; 'reason' is never used")
     rep.assume("addOnException handlers never raise; custom handlers only for Exception subclasses")
